@@ -315,11 +315,18 @@ theorem slice_from (B txt rest : List Nat) :
     slice (B ++ (txt ++ rest)) B.length (B ++ txt).length = .ok txt := by
   rw [List.length_append]; exact slice_mid B txt rest
 
-def Seg.pathOk : Seg → Prop
+/-- the paths of the `{var:}` operands the scanner finds in an expression text (followed by its
+terminator `t`) have the documented shape -/
+def varsOk (rn : List Nat → Option (Num R)) (e : List Nat) (t : Nat) : Prop :=
+  ∀ items : List (Item R),
+    Qentem.Expr.parseTop ({ readNum := rn } : ScanCfg R) (e ++ [t]) 0 e.length = .ok items →
+    ∀ v ∈ itemsVars items, PathOk (((e ++ [t]).drop v.off).take v.len)
+
+def Seg.pathOk (rn : List Nat → Option (Num R)) : Seg → Prop
   | .text _ => True
   | .var p => PathOk p
   | .raw p => PathOk p
-  | .math _ => True
+  | .math e => varsOk rn e 125
 
 section
 variable [RealLike R]
@@ -564,10 +571,6 @@ theorem rel_vars_back {Pv : VarRef → VarRef → Prop} {k n : Nat} : ∀ m,
         simp only [operandVars] at hv' ⊢
         exact ih.1 a b (by omega) hab v' hv'
 
-/-- a `{var:…}` operand of an expression text scanned alone and its copy `k` units into the content,
-outside every loop -/
-def PvTop (k n : Nat) (v v' : VarRef) : Prop := v' = ⟨k + v.off, v.len, 0, 0⟩ ∧ v.off + v.len < n
-
 /-- the code's evaluation of a list scanned in place equals the evaluation of the list scanned
 alone in the reference environment, when the paths of its `{var:}` operands have the documented
 shape -/
@@ -655,17 +658,18 @@ theorem evalText_eq (cx : RCtx R) (e : List Nat) (items0 : List (Item R))
     · simp only [List.isEmpty_cons, Bool.false_eq_true, if_false]
       exact (Qentem.Expr.evaluateTop_eq_tree _ _ h).symm
 
-theorem renderMath_seg (cx : RCtx R) (cfg : ScanCfg R) (hrn : cfg.readNum = cx.readNum) (st : RState)
+theorem renderMath_seg (cx : RCtx R) (cfg : ScanCfg R) (hg : cx.guardIndexRead = true)
+    (hrn : cfg.readNum = cx.readNum) (st : RState)
     (B txt e post : List Nat)
     (hc : cx.content = B ++ (txt ++ (([123, 109, 97, 116, 104, 58] ++ e ++ [125]) ++ post)))
-    (hp : plainL e) (hsc : Seg.scanOk cfg.readNum (.math e)) :
+    (hp : varsOk cfg.readNum e 125) (hsc : Seg.scanOk cfg.readNum (.math e)) :
     renderMath cx st (itemsAt cfg cx.content ((B ++ txt).length + 6) ((B ++ txt).length + 6 + e.length))
         (B ++ txt).length ((B ++ txt).length + 6 + e.length + 1) B.length =
       .ok (emit (emit st txt) (expSeg cx (.math e)), (B ++ txt).length + 6 + e.length + 1) := by
   obtain ⟨items0, hitems0⟩ := hsc
   have hc2 : cx.content = (B ++ txt) ++ (([123, 109, 97, 116, 104, 58] ++ e ++ [125]) ++ post) := by
     rw [hc]; simp [List.append_assoc]
-  obtain ⟨items', hex, hrel⟩ := exprs_math cfg cx.content (B ++ txt) e post hc2 hp items0 hitems0
+  obtain ⟨items', hex, hrel⟩ := exprs_math cfg cx.content (B ++ txt) e post hc2 items0 hitems0
   have hreloc := reloc_math cx.content (B ++ txt) e post hc2
   have hsl : slice cx.content B.length (B ++ txt).length = .ok txt := by rw [hc]; exact slice_from B txt _
   have hsrc : slice cx.content (B ++ txt).length ((B ++ txt).length + 6 + e.length + 1) =
@@ -677,6 +681,7 @@ theorem renderMath_seg (cx : RCtx R) (cfg : ScanCfg R) (hrn : cfg.readNum = cx.r
   have hitems : itemsAt cfg cx.content ((B ++ txt).length + 6) ((B ++ txt).length + 6 + e.length) = items' := by
     simp only [itemsAt, hex]
   rw [hitems]
+  have hp' : varsOk cx.readNum e 125 := hrn ▸ hp
   rw [hrn] at hitems0
   have hspec := evalText_eq cx e items0 hitems0
   have hemp := hrel.isEmpty
@@ -689,18 +694,18 @@ theorem renderMath_seg (cx : RCtx R) (cfg : ScanCfg R) (hrn : cfg.readNum = cx.r
   | false =>
     rw [hi] at hemp
     simp only [hi, Bool.false_eq_true, if_false] at hspec
-    have hvars : itemsVars items' = [] := (vars_reloc _).1 _ _ (Nat.le_refl _) hrel
     have hre : ∀ lk, Qentem.Expr.RelEnv (specEnv cx e)
         ({ content := cx.content, lookup := lk, readNum := cx.readNum } : Env R) ((B ++ txt).length + 6) :=
       fun lk => ⟨rfl, hreloc.slice⟩
     have hlen : (specEnv cx e).content.length = e.length + 1 := by simp [specEnv]
-    have hev := fun lk => Qentem.Expr.evaluateTop_reloc (hre lk) (Qentem.Expr.relLookup_noV _ _) true items0 items' (by rw [hlen]; exact hrel)
-    simp only [renderMath, hsl, evalExprs, ← hemp, Bool.false_eq_true, if_false, hvars, resolveVars, bind,
-      Except.bind, expSeg, hspec, (hev _).1]
+    have hev := evalExprs_reloc cx hg (emit st txt) (specEnv cx e) ((B ++ txt).length + 6) items0 items' hre
+      (fun _ => rfl) (by rw [hlen]; exact hrel) (hp' items0 hitems0)
+      (by rw [hlen, hc2]; simp only [List.length_append, List.length_cons, List.length_nil]; omega) hemp.symm
+    simp only [renderMath, hsl, hev.1, bind, Except.bind, expSeg, hspec]
     cases hv : Qentem.Expr.evaluateTop (specEnv cx e) true items0 with
     | none => simp only [hsrc, Option.bind]
     | some v =>
-      obtain ⟨z, hz⟩ := (hev (fun _ => none)).2 v hv
+      obtain ⟨z, hz⟩ := hev.2 v hv
       subst hz
       cases z <;> simp [Option.bind, numText, specOf]
 
@@ -708,7 +713,7 @@ theorem renderMath_seg (cx : RCtx R) (cfg : ScanCfg R) (hrn : cfg.readNum = cx.r
 theorem render_segs_aux (cx : RCtx R) (cfg : ScanCfg R) (hg : cx.guardIndexRead = true)
     (hrn : cfg.readNum = cx.readNum) :
     ∀ (segs : List Seg) (B txt : List Nat) (st : RState) (fuel : Nat),
-      cx.content = B ++ (txt ++ printSegs segs) → (∀ s ∈ segs, s.pathOk) → (∀ s ∈ segs, s.ok) →
+      cx.content = B ++ (txt ++ printSegs segs) → (∀ s ∈ segs, s.pathOk cfg.readNum) → (∀ s ∈ segs, s.ok) →
       (∀ s ∈ segs, s.scanOk cfg.readNum) → nTags segs + 2 ≤ fuel →
       render cx fuel (tagsOf cfg cx.content (B ++ txt).length segs) B.length cx.content.length st =
         .ok (emit st (txt ++ expSegs cx segs)) := by
@@ -726,7 +731,7 @@ theorem render_segs_aux (cx : RCtx R) (cfg : ScanCfg R) (hg : cx.guardIndexRead 
       simp [render, tagsOf, this, bind, Except.bind, expSegs]
   | cons sg rest ih =>
     intro B txt st fuel hc hok hpl hsc hf
-    have hokr : ∀ s ∈ rest, s.pathOk := fun s hs => hok s (List.mem_cons_of_mem _ hs)
+    have hokr : ∀ s ∈ rest, s.pathOk cfg.readNum := fun s hs => hok s (List.mem_cons_of_mem _ hs)
     have hplr : ∀ s ∈ rest, s.ok := fun s hs => hpl s (List.mem_cons_of_mem _ hs)
     have hscr : ∀ s ∈ rest, s.scanOk cfg.readNum := fun s hs => hsc s (List.mem_cons_of_mem _ hs)
     have hsg := hok sg (List.mem_cons_self ..)
@@ -778,8 +783,8 @@ theorem render_segs_aux (cx : RCtx R) (cfg : ScanCfg R) (hg : cx.guardIndexRead 
         cases f with
         | zero => simp [nTags] at hf
         | succ g =>
-          have hv := renderMath_seg cx cfg hrn st B txt e (printSegs rest)
-            (by rw [hc]; simp [printSegs, printSeg]) (hpl _ (List.mem_cons_self ..)) (hsc _ (List.mem_cons_self ..))
+          have hv := renderMath_seg cx cfg hg hrn st B txt e (printSegs rest)
+            (by rw [hc]; simp [printSegs, printSeg]) (hok _ (List.mem_cons_self ..)) (hsc _ (List.mem_cons_self ..))
           simp only [tagsOf, render, renderTag, hv, bind, Except.bind]
           have := ih (B ++ txt ++ printSeg (.math e)) [] (emit (emit st txt) (expSeg cx (.math e))) (g + 1)
             (by rw [hc]; simp [printSegs, printSeg]) hokr hplr hscr (by simp only [nTags] at hf; omega)
@@ -792,7 +797,7 @@ theorem render_segs_aux (cx : RCtx R) (cfg : ScanCfg R) (hg : cx.guardIndexRead 
 /-- rendering the implied tags over the printed text prints the documented expansion -/
 theorem render_segs (cx : RCtx R) (cfg : ScanCfg R) (hg : cx.guardIndexRead = true)
     (hrn : cfg.readNum = cx.readNum) (segs : List Seg)
-    (hc : cx.content = printSegs segs) (hok : ∀ s ∈ segs, s.pathOk) (hpl : ∀ s ∈ segs, s.ok)
+    (hc : cx.content = printSegs segs) (hok : ∀ s ∈ segs, s.pathOk cfg.readNum) (hpl : ∀ s ∈ segs, s.ok)
     (hsc : ∀ s ∈ segs, s.scanOk cfg.readNum) (fuel : Nat) (hf : nTags segs + 2 ≤ fuel) :
     renderTop cx (tagsOf cfg cx.content 0 segs) fuel = .ok (expSegs cx segs) := by
   have := render_segs_aux cx cfg hg hrn segs [] [] {} fuel (by simpa using hc) hok hpl hsc hf
